@@ -721,6 +721,7 @@ func first(a, _ []byte) []byte { return a }
 //@   pathkey ret
 //@   ensures[arg_bytes_unchanged] reveal(key.obj) && sameBytes(key, 0, blen(key.obj))
 //@   loop 1 (depth)
+//@     step_ensures[descent_rule] n.pointer == lookP(prev(n), keyS[prev(depth) + as(node, prev(n).pointer).prefixLen]) && n.tag == lookT(prev(n), keyS[prev(depth) + as(node, prev(n).pointer).prefixLen]) && depth == prev(depth) + as(node, prev(n).pointer).prefixLen + 1
 //@     invariant 0 <= depth && depth <= len(keyS)
 //@     invariant n.pointer == (*ref).pointer && n.tag == (*ref).tag
 //@     invariant implies(rootTag0 == 4, ref.obj == t)
@@ -745,6 +746,7 @@ func first(a, _ []byte) []byte { return a }
 //@   ensures[empty_is_initial] implies(result && rootTag0 == 4, t.root.pointer == nil && t.root.tag == 0)
 //@   ensures[noop_frame] implies(!result, frame())
 //@   loop 1 (depth)
+//@     step_ensures[descent_rule] n.pointer == lookP(prev(n), keyS[prev(depth) + as(node, prev(n).pointer).prefixLen]) && n.tag == lookT(prev(n), keyS[prev(depth) + as(node, prev(n).pointer).prefixLen]) && depth == prev(depth) + as(node, prev(n).pointer).prefixLen + 1
 //@     invariant 0 <= depth && depth <= len(keyS)
 //@     invariant n.pointer == (*ref).pointer && n.tag == (*ref).tag
 //@     invariant implies(rootTag0 == 4, ref.obj == t)
@@ -836,6 +838,7 @@ func first(a, _ []byte) []byte { return a }
 //@   ensures[key_owned] forallref(o, implies(fresh(o) && atype(o) == leafT(), fresh(as(alphaLeafNode, o).key.obj)))
 //@   ensures[wf] WF1_alpha(t)
 //@   loop 1 (depth)
+//@     step_ensures[descent_rule] n.pointer == lookP(prev(n), keyS[prev(depth) + as(node, prev(n).pointer).prefixLen]) && n.tag == lookT(prev(n), keyS[prev(depth) + as(node, prev(n).pointer).prefixLen]) && depth == prev(depth) + as(node, prev(n).pointer).prefixLen + 1
 //@     invariant 0 <= depth && depth <= len(keyS)
 //@     invariant n.pointer == (*ref).pointer && n.tag == (*ref).tag
 //@     invariant n.pointer != nil && liveRef(n)
@@ -856,6 +859,7 @@ func first(a, _ []byte) []byte { return a }
 //@   ensures[overwrite_only_value] implies(calls("Insert$1") == 0 && calls("Get") == 0, frameExcept("$KINDLeafNode.value"))
 //@   ensures[wf] WF1_$KIND(t)
 //@   loop 1 (depth)
+//@     step_ensures[descent_rule] n.pointer == lookP(prev(n), keyS[prev(depth) + as(node, prev(n).pointer).prefixLen]) && n.tag == lookT(prev(n), keyS[prev(depth) + as(node, prev(n).pointer).prefixLen]) && depth == prev(depth) + as(node, prev(n).pointer).prefixLen + 1
 //@     invariant 0 <= depth && depth <= len(keyS)
 //@     invariant n.pointer == (*ref).pointer && n.tag == (*ref).tag
 //@     invariant n.pointer != nil && liveRef(n)
@@ -933,6 +937,7 @@ func first(a, _ []byte) []byte { return a }
 //@   ensures[empty_is_initial] implies(result && rootTag0 == 4, t.root.pointer == nil && t.root.tag == 0)
 //@   ensures[noop_frame] implies(!result, frameExcept("collationSortedTree.cok.src", "CollationOrderKey.src"))
 //@   loop 1 (depth)
+//@     step_ensures[descent_rule] n.pointer == lookP(prev(n), colKey[prev(depth) + as(node, prev(n).pointer).prefixLen]) && n.tag == lookT(prev(n), colKey[prev(depth) + as(node, prev(n).pointer).prefixLen]) && depth == prev(depth) + as(node, prev(n).pointer).prefixLen + 1
 //@     invariant 0 <= depth && depth <= len(colKey)
 //@     invariant n.pointer == (*ref).pointer && n.tag == (*ref).tag
 //@     invariant implies(rootTag0 == 4, ref.obj == t)
@@ -975,6 +980,7 @@ func first(a, _ []byte) []byte { return a }
 //@   ensures[overwrite_only_value] implies(calls("Insert$1") == 0 && calls("Get") == 0, frameExcept("collateLeafNode.value", "collationSortedTree.cok.src", "CollationOrderKey.src"))
 //@   ensures[wf] WF1_collation(t)
 //@   loop 1 (depth)
+//@     step_ensures[descent_rule] n.pointer == lookP(prev(n), colKey[prev(depth) + as(node, prev(n).pointer).prefixLen]) && n.tag == lookT(prev(n), colKey[prev(depth) + as(node, prev(n).pointer).prefixLen]) && depth == prev(depth) + as(node, prev(n).pointer).prefixLen + 1
 //@     invariant 0 <= depth && depth <= len(colKey)
 //@     invariant n.pointer == (*ref).pointer && n.tag == (*ref).tag
 //@     invariant n.pointer != nil && liveRef(n)
@@ -1100,6 +1106,7 @@ func first(a, _ []byte) []byte { return a }
 //@   ensures[live] result.pointer != nil && liveRef(result)
 //@   assigns nothing
 //@   loop 1 (depth)
+//@     step_ensures[descent_rule] n.pointer == lookP(prev(n), prefix[prev(depth) + as(node, prev(n).pointer).prefixLen]) && n.tag == lookT(prev(n), prefix[prev(depth) + as(node, prev(n).pointer).prefixLen]) && depth == prev(depth) + as(node, prev(n).pointer).prefixLen + 1
 //@     invariant 0 <= depth && depth <= len(prefix) && n.pointer != nil && liveRef(n)
 //@     decreases len(prefix) - depth
 
@@ -1113,6 +1120,7 @@ func first(a, _ []byte) []byte { return a }
 //@   ensures[live] result.pointer != nil && liveRef(result)
 //@   assigns nothing
 //@   loop 1 (depth)
+//@     step_ensures[descent_rule] n.pointer == lookP(prev(n), prefix[prev(depth) + as(node, prev(n).pointer).prefixLen]) && n.tag == lookT(prev(n), prefix[prev(depth) + as(node, prev(n).pointer).prefixLen]) && depth == prev(depth) + as(node, prev(n).pointer).prefixLen + 1
 //@     invariant 0 <= depth && depth <= len(prefix) && n.pointer != nil && liveRef(n)
 //@     decreases len(prefix) - depth
 
